@@ -191,7 +191,11 @@ func c19Effective(conf *ClientConf) []string {
 func c19Check(rep *vh.Report, doc c19Doc, expect map[string]string, what string) {
 	rep.Executions++
 	rep.States++
+	rep.Transitions += 2 // parse, and re-encode + parse
 	rep.Nontrivial++
+	if rep.Executions%97 == 1 {
+		rep.Sample(doc, 4)
+	}
 	conf, text, err := c19Parse(doc)
 	if err != nil {
 		rep.Violate("", fmt.Sprintf("%s: the document does not parse: %v\n%s", what, err, text), doc)
